@@ -200,7 +200,7 @@ func (fr *frame) concInt(x value) int64 {
 }
 
 // slice returns x[lo:hi:max].  Any of lo, hi and max may be nil.
-func (fr *frame) slice(x, lo, hi, max value) value {
+func (fr *frame) slice(xt types.Type, x, lo, hi, max value) value {
 	var Len, Cap int
 	switch x := x.(type) {
 	case string:
@@ -249,9 +249,29 @@ func (fr *frame) slice(x, lo, hi, max value) value {
 	case symstr:
 		return mkString([]value(x[l:h]))
 	case []value:
+		if h > int64(Len) {
+			// materialise lazily allocated capacity
+			if st, ok := xt.Underlying().(*types.Slice); ok {
+				full := x[:h]
+				for i := Len; i < int(h); i++ {
+					if full[i] == nil {
+						full[i] = zero(st.Elem())
+					}
+				}
+			}
+		}
 		return x[l:h:m]
 	case *value: // *array
 		a := (*x).(array)
+		if len(a) > 256 {
+			if at, ok := deref(xt).Underlying().(*types.Array); ok {
+				for i := l; i < h; i++ {
+					if a[i] == nil {
+						a[i] = zero(at.Elem())
+					}
+				}
+			}
+		}
 		return []value(a)[l:h:m]
 	}
 	panic(fmt.Sprintf("slice: unexpected X type: %T", x))
@@ -868,14 +888,7 @@ func (fr *frame) callBuiltin(caller *frame, callpos token.Pos, fn *ssa.Builtin, 
 		for _, v := range add {
 			out = append(out, copyVal(v))
 		}
-		// spare capacity must hold zero values of the element type
-		if ncap > len(out) {
-			et := fn.Type().(*types.Signature).Results().At(0).Type().Underlying().(*types.Slice).Elem()
-			full := out[:ncap]
-			for i := len(out); i < ncap; i++ {
-				full[i] = zero(et)
-			}
-		}
+		// spare capacity is materialised lazily (see frame.slice)
 		return out
 
 	case "copy": // copy([]T, []T) int or copy([]byte, string) int
